@@ -3,6 +3,8 @@ package props
 import (
 	"bytes"
 	"fmt"
+	"github.com/robfig/soy/ast"
+	"github.com/robfig/soy/soymsg"
 	"strings"
 	"testing"
 
@@ -25,6 +27,38 @@ type C06Case struct {
 	Obligatory []string     `json:"obligatory,omitempty"`
 	Text       string       `json:"text,omitempty"` // expression source / globals file
 	Mutations  int          `json:"mutations,omitempty"`
+	// StaleMsgs > 0: the render uses a message bundle whose entries no longer fit the messages (a
+	// catalogue translated from an older version of the templates): unknown placeholder names, plural
+	// parts for messages that have none, plural parts without cases. The number selects the variants.
+	StaleMsgs int `json:"stale_msgs,omitempty"`
+}
+
+// staleBundle builds the ill-fitting catalogue for the messages of a compiled bundle.
+func staleBundle(cb *compiled, seed int) *mapBundle {
+	b := &mapBundle{msgs: map[uint64]*soymsg.Message{}}
+	k := seed
+	for _, t := range cb.reg.Templates {
+		collectMsgs(t.Node, func(m *ast.MsgNode) {
+			k++
+			var parts []soymsg.Part
+			switch k % 6 {
+			case 0:
+				parts = []soymsg.Part{soymsg.RawTextPart{Text: "old "}, soymsg.PlaceholderPart{Name: "NO_SUCH_PLACEHOLDER"}}
+			case 1:
+				parts = []soymsg.Part{soymsg.PluralPart{VarName: "NO_SUCH_NUM", Cases: []soymsg.PluralCase{{Parts: []soymsg.Part{soymsg.RawTextPart{Text: "one"}}}}}}
+			case 2:
+				parts = []soymsg.Part{soymsg.PluralPart{VarName: "NUM"}}
+			case 3:
+				parts = []soymsg.Part{soymsg.RawTextPart{Text: "only text"}}
+			case 4:
+				parts = []soymsg.Part{soymsg.PlaceholderPart{Name: ""}, nil}
+			default:
+				parts = soymsg.Parts(soymsg.PlaceholderString(m))
+			}
+			b.msgs[m.ID] = &soymsg.Message{ID: m.ID, Parts: parts}
+		})
+	}
+	return b
 }
 
 func genC06(t *rapid.T) C06Case {
@@ -66,8 +100,12 @@ func genC06(t *rapid.T) C06Case {
 		}
 		return C06Case{Kind: "globals", Text: b.String()}
 	}
-	pc := gen.GenProgram(g, gen.ProgOpts{MaxTemplates: 4, MaxDepth: 3, MaxCmds: 4, ExprDepth: 2, PosWeight: 4, CallWeight: 10, Valueless: true})
+	pc := gen.GenProgram(g, gen.ProgOpts{MaxTemplates: 4, MaxDepth: 3, MaxCmds: 4, ExprDepth: 2, PosWeight: 4, CallWeight: 10, Valueless: true, MsgWeight: 4})
 	c := C06Case{Kind: "render", Prog: pc}
+	if rapid.IntRange(0, 2).Draw(t, "stale") == 0 {
+		c.StaleMsgs = rapid.IntRange(1, 6).Draw(t, "staleSeed")
+		c.Mutations++
+	}
 	c.Mutations = g.ChaosProgram(&c.Prog, rapid.SampledFrom([]int{5, 15, 40}).Draw(t, "rate"))
 	// data of arbitrary shape
 	for k := range c.Prog.Data {
@@ -145,6 +183,9 @@ func checkC06(c C06Case) Verdict {
 				rd := cb.tofu.NewRenderer(c.Prog.Entry)
 				if c.Prog.HasIJ {
 					rd.Inject(toDataMap(c.Prog.IJ))
+				}
+				if c.StaleMsgs > 0 {
+					rd.WithMessages(staleBundle(cb, c.StaleMsgs))
 				}
 				err = rd.Execute(&buf, toDataMap(c.Prog.Data))
 			})
